@@ -43,3 +43,9 @@ Theorem C04_density_is_exp_log_prob : forall phi_ga dg : R, 0 < phi_ga -> 0 < dg
 Proof. exact density_is_exp_log_prob. Qed.
 Print Assumptions C04_pushforward_density_1d.
 Print Assumptions C04_density_is_exp_log_prob.
+
+(* as regenerated from nflows/flows/base.py: in _log_prob, _sample and sample_and_log_prob every call into the base distribution
+   and into the transform receives the EMBEDDED context (or, for a base distribution that takes no context, none at all) *)
+Theorem C04_every_call_gets_the_embedded_context : flow_every_call_gets_embedded_context = true.
+Proof. reflexivity. Qed.
+Print Assumptions C04_every_call_gets_the_embedded_context.
